@@ -299,9 +299,8 @@ def run_jobs(ctx, jobs):
 # ----------------------------------------------------------------------------------------
 # TLC runs
 # ----------------------------------------------------------------------------------------
-def enumerate_histories(ctx, plans):
-    """One TLC run of ExprManagerEnum over all plans; returns {plan name: [history, ...]}."""
-    d = ctx.sub("enum")
+def _enumerate(ctx, label, plans):
+    d = ctx.sub("enum-" + label)
     out = os.path.join(d, "hist.ndjson")
     pl = os.path.join(d, "plans.ndjson")
     tlc.write_ndjson(pl, plans)
@@ -312,15 +311,37 @@ def enumerate_histories(ctx, plans):
     hist = tlc.read_ndjson(out)
     emitted = [p for p in res.printed if p and p[0] == "EMITTED"]
     if not emitted or emitted[0][1] != len(hist) or not hist:
-        raise MachineryError("enumeration: %r histories announced, %d written" % (emitted, len(hist)))
+        raise MachineryError("enumeration %s: %r histories announced, %d written" % (label, emitted, len(hist)))
+    return hist, res
+
+
+def enumerate_histories(ctx, plans, parallel=False):
+    """TLC (ExprManagerEnum) enumerates the histories of all plans; returns {plan name: [history, ...]}.
+    One TLC run for all plans, or one run per plan side by side (the enumeration is single-threaded)."""
+    if parallel:
+        from concurrent.futures import ThreadPoolExecutor
+
+        with ThreadPoolExecutor(len(plans)) as ex:
+            outs = list(ex.map(lambda p: _enumerate(ctx, p["name"], [p]), plans))
+    else:
+        outs = [_enumerate(ctx, "all", plans)]
     by = {p["name"]: [] for p in plans}
-    for h in hist:
-        by[h["plan"]].append(h["ops"])
+    tags = {"spec_rejected": 0, "spec_rejected_twice": 0}
+    for hist, res in outs:
+        for h in hist:
+            by[h["plan"]].append(h["ops"])
+            tags["spec_rejected"] += h["nrej"]
+            tags["spec_rejected_twice"] += 1 if h["rrep"] else 0
     for name, hs in by.items():
         if not hs:
             raise MachineryError("enumeration plan %s is empty" % name)
         hs.sort(key=lambda ops: repr(ops))  # TLC's set order is deterministic; sorted anyway
-    ctx.cov["tlc_runs"].append({"label": "enum", "histories": {k: len(v) for k, v in by.items()}, "wall_s": round(res.wall, 2)})
+    ctx.cov["tlc_runs"].append(
+        {"label": "enum", "histories": {k: len(v) for k, v in by.items()}, "wall_s": round(max(r.wall for _, r in outs), 2)}
+    )
+    if not tags["spec_rejected"] or not tags["spec_rejected_twice"]:
+        raise MachineryError("vacuity: the enumeration holds no (repeated) ill-typed attempt: %r" % tags)
+    ctx.notes["enumeration_tags"] = tags
     return by
 
 
@@ -375,7 +396,7 @@ def account(traces, stats):
             exc = o["r"][0] == "exc"
             if key in texts:
                 rep = True
-                feats.add("repeat-rejected" if exc or texts[key] else "repeat-accepted")
+                feats.add("repeat")
             texts[key] = exc
             stats["ctors"].add(k)
             if k in NARY and len(o["a"]) < 2:
@@ -394,7 +415,7 @@ def account(traces, stats):
 
 
 REQUIRED_FEATURES = (
-    ["repeat-accepted", "repeat-rejected", "GE", "GT", "Not(Not)"]
+    ["repeat", "GE", "GT", "Not(Not)"]
     + ["%s/%d" % (k, n) for k in NARY for n in (0, 1)]
     + ["lit:" + v for v in ("i2", "f2.0", "s2", "q4/2", "q1/2", "f0.5")]
 )
@@ -470,10 +491,9 @@ def run(ctx):
             plan("seq3-all", "seq", 3, ALL_CTORS, ["b", "c", "x"], ["i2", "f2.0", "q1/2"]),
             plan("seq3-ternary", "seq", 3, ["And", "Or", "Plus", "Times", "Not", "FluentExp"], ["b", "x"], ["f2.0"], maxar=3),
             plan("seq4-A1", "seq", 4, ["And", "Not", "Plus", "GE", "Equals", "FluentExp"], ["b", "x"], ["f2.0"]),
-            plan("seq4-A2", "seq", 4, ["Or", "Not", "Iff", "Times", "GT", "FluentExp"], ["b", "x"], ["q1/2"]),
-            plan("seq2-direct", "seq", 2, ["And", "Not", "Iff", "Plus", "Div", "LE", "GT", "Equals"], ["b", "x"], ["i2", "f2.0", "q1/2"], direct=True),
+            plan("seq2-direct", "seq", 2, ["And", "Not", "Plus", "Div", "GT", "Equals"], ["b", "x"], ["i2", "q1/2"], direct=True),
         ]
-    by = enumerate_histories(ctx, plans)
+    by = enumerate_histories(ctx, plans, parallel=not q)
     _dbg(ctx, "enumerated %r" % {k: len(v) for k, v in by.items()})
     jobs = []
     tid = 0
@@ -496,8 +516,6 @@ def run(ctx):
     missing = set(ALL_CTORS) - stats["ctors"]
     if missing:
         raise MachineryError("vacuity: constructors never exercised: %s" % sorted(missing))
-    if stats["raised"] == 0:
-        raise MachineryError("vacuity: no ill-typed attempt was made")
     nofeat = [f for f in REQUIRED_FEATURES if f not in stats["features"]]
     if nofeat:
         raise MachineryError("vacuity: call shapes never exercised: %s" % nofeat)
